@@ -36,7 +36,7 @@ RoundTripOk(c) ==
   /\ IF c.kind = "ga" THEN ReadGA(c.text) = [raw |-> c.raw, parts |-> PartsOf(c.fmt)]   \* the text means this address in the configured notation
      ELSE ReadIA(c.text) = c.raw
 TextOk(c) == CASE c.out = "addr" -> c.fixed = 1           \* renders and re-parses to itself
-               [] c.out = "parse_error" -> TRUE           \* the address parse error
+               [] c.out = "parse_error" -> c.must = 0     \* the address parse error - not for a text that is the rendering of an address (must = 1)
                [] OTHER -> FALSE                          \* never another exception
 \* ---- C02: group address filters.  A pattern is a sequence of 1..3 levels; a level is a sequence of ranges [lo, hi] (-1: open end)
 MAXV == 65535
